@@ -88,7 +88,7 @@ fn edit_step(c: &mut Cur) -> EditStep {
         4 | 5 => EditStep::Remove { elem: c.u16() },
         6 | 7 => EditStep::Move { elem: c.u16(), arr: c.u16(), pos: c.u16() },
         8 | 9 => EditStep::SetField { obj: c.u16(), key: c.u8() % 5, val: if c.u8() % 6 == 0 { None } else { Some(j(c, 0)) } },
-        10 => EditStep::SetFlat { obj: c.u16(), key: c.u8() % 3, kind: flatkind(c) },
+        10 => EditStep::SetFlat { obj: c.u16(), key: c.u8() % 4, kind: flatkind(c) },
         11 => EditStep::Reverse { arr: c.u16() },
         12 => EditStep::Rotate { arr: c.u16() },
         13 => EditStep::RemoveKey { arr: c.u16() },
@@ -96,6 +96,7 @@ fn edit_step(c: &mut Cur) -> EditStep {
             let n = c.u8() % 7;
             EditStep::Replace { items: (0..n).map(|_| (c.u16(), c.u16(), content(c))).collect(), t: if c.flag() { Some(j(c, 0)) } else { None }, o: flatkind(c) }
         }
+        15 if c.flag() => EditStep::Bulk { arr: c.u16(), n: 5 + c.u8() % 25, v: if c.flag() { Some(j(c, 2)) } else { None } },
         _ => EditStep::Clear,
     }
 }
